@@ -99,9 +99,9 @@ theorem nonEq_complete {a v sv r : Bytes} {c : UInt8} {id : Nat} (ha : IsAttrDes
 
 /-! ## `extensible` -/
 
-def dnFlag1 : P (Option Bytes) := opt (terminated (tag [0x3A, 0x64, 0x6E]) (peek (tag [0x3A])))
-def dnFlag2 : P (Option Bytes) :=
-  opt (terminated (tag [0x3A, 0x64, 0x6E]) (peek (preceded (tag [0x3A]) attributetype)))
+def kwTag : P Bytes := tagNoCase [0x3A, 0x64, 0x6E]
+def dnFlag1 : P (Option Bytes) := opt (terminated kwTag (peek (tag [0x3A])))
+def dnFlag2 : P (Option Bytes) := opt (terminated kwTag (peek (preceded (tag [0x3A]) attributetype)))
 def colonType : P Bytes := preceded (tag [0x3A]) attributetype
 
 theorem attrDnMrule_def : attrDnMrule =
@@ -119,18 +119,21 @@ theorem dnMrule_def : dnMrule =
     andThen unescaped fun value =>
     ret (extensibleTag (some mrule) none value dn.isSome) := rfl
 
+theorem np_kwTag : NP kwTag := by
+  intro i; unfold kwTag tagNoCase; split <;> simp
+
 theorem np_colonType : NP colonType := np_preceded (np_tag _) np_attributetype
 
 theorem np_attrDnMrule : NP attrDnMrule := by
   rw [attrDnMrule_def]
   exact np_andThen np_attributedescription fun _ =>
-    np_andThen (np_opt (np_terminated (np_tag _) (np_peek (np_tag _)))) fun _ =>
+    np_andThen (np_opt (np_terminated np_kwTag (np_peek (np_tag _)))) fun _ =>
     np_andThen (np_opt np_colonType) fun _ => np_andThen (np_tag _) fun _ =>
     np_andThen np_unescaped fun _ => np_ret _
 
 theorem np_dnMrule : NP dnMrule := by
   rw [dnMrule_def]
-  exact np_andThen (np_opt (np_terminated (np_tag _) (np_peek np_colonType))) fun _ =>
+  exact np_andThen (np_opt (np_terminated np_kwTag (np_peek np_colonType))) fun _ =>
     np_andThen np_colonType fun _ => np_andThen (np_tag _) fun _ =>
     np_andThen np_unescaped fun _ => np_ret _
 
@@ -162,70 +165,129 @@ theorem colonType_nil : colonType [] = .err := by
   unfold colonType preceded
   exact andThen_err (tag1_nil _)
 
-/-- a successful `terminated(tag(":dn"), peek(q))` -/
+/-! ### `tag_no_case(":dn")` -/
+
+def lcChk (n : Nat) : Bool :=
+  (lowercaseByte n.toUInt8 == lowercaseByte 0x3A) == (n.toUInt8 == 0x3A) &&
+  (lowercaseByte n.toUInt8 == lowercaseByte 0x64) == (n.toUInt8 == 0x64 || n.toUInt8 == 0x44) &&
+  (lowercaseByte n.toUInt8 == lowercaseByte 0x6E) == (n.toUInt8 == 0x6E || n.toUInt8 == 0x4E)
+
+set_option maxRecDepth 100000 in
+theorem lcChk_all : ∀ n, n < 256 → lcChk n = true := by decide
+
+theorem lc_facts (c : UInt8) :
+    ((lowercaseByte c == lowercaseByte 0x3A) = (c == 0x3A)) ∧
+    ((lowercaseByte c == lowercaseByte 0x64) = (c == 0x64 || c == 0x44)) ∧
+    ((lowercaseByte c == lowercaseByte 0x6E) = (c == 0x6E || c == 0x4E)) := by
+  have := lcChk_all c.toNat c.toNat_lt
+  have e : c.toNat.toUInt8 = c := by simp
+  unfold lcChk at this
+  rw [e] at this
+  simp only [Bool.and_eq_true, beq_iff_eq] at this
+  exact ⟨this.1.1, this.1.2, this.2⟩
+
+theorem isDnKw_lib (k : Bytes) : isDnKw .lib k = true ↔
+    k = [0x64, 0x6E] ∨ k = [0x44, 0x4E] ∨ k = [0x44, 0x6E] ∨ k = [0x64, 0x4E] := by
+  simp [isDnKw, Dialect.lib, or_assoc]
+
+theorem isDnKw_pair (c1 c2 : UInt8) : isDnKw .lib [c1, c2] =
+    ((c1 == 0x64 || c1 == 0x44) && (c2 == 0x6E || c2 == 0x4E)) := by
+  rw [Bool.eq_iff_iff]
+  simp only [isDnKw_lib, Bool.and_eq_true, Bool.or_eq_true, beq_iff_eq, List.cons.injEq, and_true]
+  constructor
+  · rintro (⟨rfl, rfl⟩ | ⟨rfl, rfl⟩ | ⟨rfl, rfl⟩ | ⟨rfl, rfl⟩) <;> simp
+  · rintro ⟨rfl | rfl, rfl | rfl⟩ <;> simp
+
+theorem eqNoCase_kw (c0 c1 c2 : UInt8) (r : Bytes) :
+    eqNoCase [0x3A, 0x64, 0x6E] (c0 :: c1 :: c2 :: r) = (c0 == 0x3A && isDnKw .lib [c1, c2]) := by
+  simp only [eqNoCase, (lc_facts c0).1, (lc_facts c1).2.1, (lc_facts c2).2.2, isDnKw_pair, Bool.and_true]
+
+theorem kwTag_ok {i x r : Bytes} (h : kwTag i = .ok x r) :
+    ∃ c1 c2, i = 0x3A :: c1 :: c2 :: r ∧ isDnKw .lib [c1, c2] = true := by
+  unfold kwTag tagNoCase at h
+  split at h
+  · rename_i he
+    cases h
+    match i, he with
+    | [], he => simp [eqNoCase] at he
+    | [_], he => simp [eqNoCase] at he
+    | [_, _], he => simp [eqNoCase] at he
+    | c0 :: c1 :: c2 :: r, he =>
+      rw [eqNoCase_kw] at he
+      simp only [Bool.and_eq_true, beq_iff_eq] at he
+      exact ⟨c1, c2, by rw [he.1]; rfl, he.2⟩
+  · cases h
+
+theorem kwTag_eq {kw : Bytes} (hk : isDnKw .lib kw = true) (r : Bytes) :
+    kwTag (0x3A :: kw ++ r) = .ok (0x3A :: kw) r := by
+  rcases (isDnKw_lib kw).mp hk with rfl | rfl | rfl | rfl <;>
+    (unfold kwTag tagNoCase; rw [if_pos (by rw [List.cons_append, List.cons_append, List.cons_append, eqNoCase_kw]; decide)]; rfl)
+
+theorem kwTag_err_of {i : Bytes} (h : ∀ c1 c2 r, i = 0x3A :: c1 :: c2 :: r → isDnKw .lib [c1, c2] = false) :
+    kwTag i = .err := by
+  cases hk : kwTag i with
+  | err => rfl
+  | panic => exact absurd hk (np_kwTag i)
+  | ok x r =>
+    obtain ⟨c1, c2, e, hkw⟩ := kwTag_ok hk
+    rw [h c1 c2 r e] at hkw; cases hkw
+
+/-- a successful `terminated(tag_no_case(":dn"), peek(q))` -/
 theorem dnTerm_ok {α : Type} {q : P α} {i x r : Bytes}
-    (h : terminated (tag [0x3A, 0x64, 0x6E]) (peek q) i = .ok x r) :
-    i = 0x3A :: 0x64 :: 0x6E :: r ∧ ∃ a r', q r = .ok a r' := by
+    (h : terminated kwTag (peek q) i = .ok x r) :
+    ∃ kw, i = 0x3A :: kw ++ r ∧ isDnKw .lib kw = true ∧ ∃ a r', q r = .ok a r' := by
   obtain ⟨_, r1, h1, h2⟩ := andThen_ok h
   obtain ⟨a, r2, h3, h4⟩ := andThen_ok h2
   obtain ⟨_, e⟩ := ret_ok h4
   obtain ⟨e2, r', hq⟩ := peek_ok h3
-  obtain ⟨_, e1⟩ := tag_ok h1
+  obtain ⟨c1, c2, e1, hk⟩ := kwTag_ok h1
   subst e e2
-  exact ⟨by rw [e1]; rfl, a, r', hq⟩
+  exact ⟨[c1, c2], by rw [e1]; rfl, hk, a, r', hq⟩
 
-theorem dnTerm_eq {α : Type} {q : P α} {r : Bytes} {a : α} {r' : Bytes} (hq : q r = .ok a r') :
-    terminated (tag [0x3A, 0x64, 0x6E]) (peek q) (0x3A :: 0x64 :: 0x6E :: r) = .ok [0x3A, 0x64, 0x6E] r := by
-  have : tag [0x3A, 0x64, 0x6E] (0x3A :: 0x64 :: 0x6E :: r) = .ok [0x3A, 0x64, 0x6E] r :=
-    tag_append [0x3A, 0x64, 0x6E] r
+theorem dnTerm_eq {α : Type} {q : P α} {kw r : Bytes} {a : α} {r' : Bytes} (hk : isDnKw .lib kw = true)
+    (hq : q r = .ok a r') : terminated kwTag (peek q) (0x3A :: kw ++ r) = .ok (0x3A :: kw) r := by
   unfold terminated
-  rw [andThen_eq this, andThen_eq (peek_eq hq)]
+  rw [andThen_eq (kwTag_eq hk r), andThen_eq (peek_eq hq)]
   rfl
 
-/-- `terminated(tag(":dn"), peek(q))` fails on `: m …` when `m` is an oid other than `dn` and `q`
-fails on everything not starting with `:` -/
-theorem dnTerm_err {α : Type} {q : P α} {m x : Bytes} (hm : IsOid .lib m)
-    (hq : ∀ c y, c ≠ 0x3A → q (c :: y) = .err) (hq0 : m = [0x64, 0x6E] → q x = .err)
-    (hx : m = [0x64, 0x6E] ∨ ∃ y, x = 0x3A :: y) :
-    terminated (tag [0x3A, 0x64, 0x6E]) (peek q) (0x3A :: m ++ x) = .err ∨ m = [0x64, 0x6E] ∧ False := by
-  left
+/-- `terminated(tag_no_case(":dn"), peek(q))` fails on `: m : …` when `m` is an oid, `q` fails on
+everything not starting with `:`, and on what follows `m` in case `m` is spelled like the keyword -/
+theorem dnTerm_err {α : Type} {q : P α} {m y : Bytes} (hm : IsOid .lib m)
+    (hq : ∀ c z, c ≠ 0x3A → q (c :: z) = .err) (hq0 : isDnKw .lib m = true → q (0x3A :: y) = .err) :
+    terminated kwTag (peek q) (0x3A :: m ++ (0x3A :: y)) = .err := by
   obtain ⟨⟨c0, t0, e0, _⟩, hch⟩ := oid_chars hm
-  by_cases hpre : [0x3A, 0x64, 0x6E].isPrefixOf (0x3A :: m ++ x) = true
-  · -- m = d n m'
-    have hsplit := isPrefixOf_split _ _ hpre
-    have htag : tag [0x3A, 0x64, 0x6E] (0x3A :: m ++ x) = .ok [0x3A, 0x64, 0x6E] ((0x3A :: m ++ x).drop 3) := by
-      unfold tag; rw [if_pos hpre]; rfl
+  cases hk : kwTag (0x3A :: m ++ (0x3A :: y)) with
+  | panic => exact absurd hk (np_kwTag _)
+  | err => unfold terminated; exact andThen_err hk
+  | ok x r =>
+    obtain ⟨c1, c2, e, hkw⟩ := kwTag_ok hk
     unfold terminated
-    rw [andThen_eq htag]
+    rw [andThen_eq hk]
     apply andThen_err
     apply peek_err
-    match m, hm, hch, hq0, hx, hsplit with
-    | [], _, _, _, _, _ => cases e0
-    | [c1], _, _, _, hx, hsplit =>
-      rcases hx with hx | ⟨y, rfl⟩
-      · cases hx
-      · simp at hsplit
-    | c1 :: c2 :: [], _, _, hq0, _, hsplit =>
-      simp at hsplit
-      obtain ⟨rfl, rfl⟩ := hsplit
-      simpa using hq0 rfl
-    | c1 :: c2 :: c3 :: m', _, hch, _, _, _ =>
-      have h3 : c3 ≠ 0x3A := by
-        rcases hch c3 (by simp) with h | h
+    match m, hm, hch, hq0, e with
+    | [], _, _, _, _ => cases e0
+    | [d1], _, _, _, e =>
+      simp at e
+      obtain ⟨rfl, rfl, _⟩ := e
+      rw [isDnKw_pair] at hkw; simp at hkw
+    | [d1, d2], _, _, hq0, e =>
+      simp at e
+      obtain ⟨rfl, rfl, rfl⟩ := e
+      exact hq0 hkw
+    | d1 :: d2 :: d3 :: m', _, hch, _, e =>
+      simp at e
+      obtain ⟨rfl, rfl, rfl⟩ := e
+      have h3 : d3 ≠ 0x3A := by
+        rcases hch d3 (by simp) with h | h
         · intro e; subst e; simp [isAlnumHyphen, isAlnum, isAlpha, isDigit] at h
         · intro e; rw [e] at h; cases h
-      simpa using hq c3 (m' ++ x) h3
-  · have : tag [0x3A, 0x64, 0x6E] (0x3A :: m ++ x) = .err := by unfold tag; rw [if_neg hpre]
-    unfold terminated
-    exact andThen_err this
+      exact hq d3 _ h3
 
 theorem extTag_toTlv (mrule attr : Option Bytes) (v : Bytes) (dn : Bool) :
     (extensibleTag mrule attr v dn).toTlv = toTlv (.ext mrule attr v dn) := by
   cases mrule <;> cases attr <;> cases dn <;>
     simp [extensibleTag, Tag.toTlv, Tag.toTlvList, toTlv, optPrim, boolOctet]
-
-theorem isDnKw_lib (k : Bytes) : isDnKw .lib k = true ↔ k = [0x64, 0x6E] := by
-  simp [isDnKw, Dialect.lib]
 
 theorem attrDnMrule_sound {i : Bytes} {t : Tag} {r : Bytes} (h : attrDnMrule i = .ok t r) :
     ∃ f s, i = s ++ r ∧ GItem .lib f s ∧ t.toTlv = toTlv f := by
@@ -246,27 +308,26 @@ theorem attrDnMrule_sound {i : Bytes} {t : Tag} {r : Bytes} (h : attrDnMrule i =
       exact ⟨by rw [e]; simp [optStr], fun m' e' => by cases e'; exact ho⟩
     · exact ⟨by simp [optStr], fun m e => by cases e⟩
   obtain ⟨e3, hoid⟩ := hrule
-  refine ⟨.ext mrule (some a) v dn.isSome, a ++ ((if dn.isSome then 0x3A :: [0x64, 0x6E] else []) ++
-    (optStr [0x3A] mrule ++ 0x3A :: 0x3D :: sv)), ?_, ?_, extTag_toTlv _ _ _ _⟩
-  · rcases opt_ok h2 with ⟨x, rfl, hx⟩ | ⟨rfl, rfl, _⟩
-    · obtain ⟨e2, _⟩ := dnTerm_ok hx
-      rw [e1, e2, e3, e4, e5]; simp
+  rcases opt_ok h2 with ⟨x, rfl, hx⟩ | ⟨rfl, e2, herr⟩
+  · obtain ⟨kw, e2, hk, _⟩ := dnTerm_ok hx
+    refine ⟨.ext mrule (some a) v true, a ++ ((if true then 0x3A :: kw else []) ++
+      (optStr [0x3A] mrule ++ 0x3A :: 0x3D :: sv)), ?_, ?_, extTag_toTlv _ _ _ _⟩
+    · rw [e1, e2, e3, e4, e5]; simp
+    · exact GItem.extAttr ha (fun _ => hk) hoid (fun h => by cases h) hv
+  · subst e2
+    refine ⟨.ext mrule (some a) v false, a ++ ((if false then 0x3A :: [] else []) ++
+      (optStr [0x3A] mrule ++ 0x3A :: 0x3D :: sv)), ?_, ?_, extTag_toTlv _ _ _ _⟩
     · rw [e1, e3, e4, e5]; simp
-  · refine GItem.extAttr ha (fun _ => by simp [isDnKw]) hoid ?_ hv
-    intro hdn m hm
-    subst hm
-    rcases opt_ok h2 with ⟨x, rfl, hx⟩ | ⟨rfl, e2, herr⟩
-    · simp at hdn
-    · -- had the rule been spelled `dn`, the flag parser would have matched
+    · refine GItem.extAttr ha (fun h => by cases h) hoid ?_ hv
+      intro _ m hm
+      subst hm
+      -- had the rule been spelled like the keyword, the flag parser would have matched
       cases hk : isDnKw .lib m with
       | false => rfl
       | true =>
-        rw [isDnKw_lib] at hk
-        subst hk
-        subst e2
-        have : terminated (tag [0x3A, 0x64, 0x6E]) (peek (tag [0x3A])) r2 = .ok [0x3A, 0x64, 0x6E] r3 := by
+        have : terminated kwTag (peek (tag [0x3A])) r2 = .ok (0x3A :: m) r3 := by
           rw [e3, e4]
-          exact dnTerm_eq (q := tag [0x3A]) (tag_append [0x3A] (0x3D :: r4))
+          exact dnTerm_eq (q := tag [0x3A]) hk (tag_append [0x3A] (0x3D :: r4))
         rw [this] at herr
         cases herr
 
@@ -298,15 +359,14 @@ theorem attrDnMrule_complete {a v sv kw r : Bytes} {rule : Option Bytes} {dn : B
     rfl
   cases dn with
   | true =>
-    have hk : kw = [0x64, 0x6E] := (isDnKw_lib kw).mp (hkw rfl)
-    subst hk
-    have e : (a ++ ((if true = true then 0x3A :: [0x64, 0x6E] else []) ++
-        (optStr [0x3A] rule ++ 0x3A :: 0x3D :: sv))) ++ r = a ++ (0x3A :: 0x64 :: 0x6E :: 0x3A :: Y) := by
+    have hk := hkw rfl
+    have e : (a ++ ((if true = true then 0x3A :: kw else []) ++
+        (optStr [0x3A] rule ++ 0x3A :: 0x3D :: sv))) ++ r = a ++ (0x3A :: kw ++ (0x3A :: Y)) := by
       rw [← eY]; simp
-    have h1 : attributedescription (a ++ (0x3A :: 0x64 :: 0x6E :: 0x3A :: Y)) = .ok a _ :=
+    have h1 : attributedescription (a ++ (0x3A :: kw ++ (0x3A :: Y))) = .ok a _ :=
       attributedescription_complete ha (attr_colon_stop _)
-    have h2 : dnFlag1 (0x3A :: 0x64 :: 0x6E :: 0x3A :: Y) = .ok (some [0x3A, 0x64, 0x6E]) (0x3A :: Y) :=
-      opt_some (dnTerm_eq (q := tag [0x3A]) (tag_append [0x3A] Y))
+    have h2 : dnFlag1 (0x3A :: kw ++ (0x3A :: Y)) = .ok (some (0x3A :: kw)) (0x3A :: Y) :=
+      opt_some (dnTerm_eq (q := tag [0x3A]) hk (tag_append [0x3A] Y))
     rw [e, attrDnMrule_def, andThen_eq h1, andThen_eq h2]
     exact htail _ rfl
   | false =>
@@ -321,22 +381,18 @@ theorem attrDnMrule_complete {a v sv kw r : Bytes} {rule : Option Bytes} {dn : B
       | none =>
         simp only [optStr, List.nil_append] at eY
         cases eY
-        have : tag [0x3A, 0x64, 0x6E] (0x3A :: 0x3D :: (sv ++ r)) = .err := by simp [tag]
         unfold terminated
-        exact andThen_err this
+        refine andThen_err (kwTag_err_of ?_)
+        intro c1 c2 r' e
+        simp at e
+        rw [← e.1, isDnKw_pair]; simp
       | some m =>
         simp only [optStr] at eY
         have eY' : 0x3A :: Y = 0x3A :: m ++ (0x3A :: 0x3D :: (sv ++ r)) := by rw [← eY]; simp
         rw [eY']
-        have hne : m ≠ [0x64, 0x6E] := by
-          intro e
-          have := hnd rfl m rfl
-          rw [e] at this
-          simp [isDnKw] at this
-        rcases dnTerm_err (q := tag [0x3A]) (x := 0x3A :: 0x3D :: (sv ++ r)) (hoid m rfl)
-          (fun c y hc => tag_err_of_head rfl (Ne.symm hc)) (fun e => absurd e hne) (Or.inr ⟨_, rfl⟩) with h | ⟨_, h⟩
-        · exact h
-        · exact h.elim
+        have hne := hnd rfl m rfl
+        exact dnTerm_err (q := tag [0x3A]) (hoid m rfl)
+          (fun c y hc => tag_err_of_head rfl (Ne.symm hc)) (fun e => by rw [hne] at e; cases e)
     rw [e, attrDnMrule_def, andThen_eq h1, andThen_eq h2]
     exact htail _ rfl
 
@@ -351,12 +407,14 @@ theorem dnMrule_sound {i : Bytes} {t : Tag} {r : Bytes} (h : dnMrule i = .ok t r
   obtain ⟨e2, hm⟩ := colonType_sound h2
   obtain ⟨_, e3⟩ := tag_ok h3
   obtain ⟨sv, e4, hv, _⟩ := unescaped_sound h4
-  refine ⟨.ext (some m) none v dn.isSome, (if dn.isSome then 0x3A :: [0x64, 0x6E] else []) ++
-    (0x3A :: m ++ 0x3A :: 0x3D :: sv), ?_, GItem.extRule hm (fun _ => by simp [isDnKw]) hv, extTag_toTlv _ _ _ _⟩
   rcases opt_ok h1 with ⟨x, rfl, hx⟩ | ⟨rfl, rfl, _⟩
-  · obtain ⟨e1, _⟩ := dnTerm_ok hx
+  · obtain ⟨kw, e1, hk, _⟩ := dnTerm_ok hx
+    refine ⟨.ext (some m) none v true, (if true then 0x3A :: kw else []) ++
+      (0x3A :: m ++ 0x3A :: 0x3D :: sv), ?_, GItem.extRule hm (fun _ => hk) hv, extTag_toTlv _ _ _ _⟩
     rw [e1, e2, e3, e4]; simp
-  · rw [e2, e3, e4]; simp
+  · refine ⟨.ext (some m) none v false, (if false then 0x3A :: [] else []) ++
+      (0x3A :: m ++ 0x3A :: 0x3D :: sv), ?_, GItem.extRule hm (fun h => by cases h) hv, extTag_toTlv _ _ _ _⟩
+    rw [e2, e3, e4]; simp
 
 theorem dnMrule_complete {m v sv kw r : Bytes} {dn : Bool}
     (hm : IsOid .lib m) (hkw : dn = true → isDnKw .lib kw = true) (hv : RVal v sv) (hr : ItemStop r) :
@@ -376,25 +434,21 @@ theorem dnMrule_complete {m v sv kw r : Bytes} {dn : Bool}
     rfl
   cases dn with
   | true =>
-    have hk : kw = [0x64, 0x6E] := (isDnKw_lib kw).mp (hkw rfl)
-    subst hk
-    have e : ((if true = true then 0x3A :: [0x64, 0x6E] else []) ++ (0x3A :: m ++ 0x3A :: 0x3D :: sv)) ++ r =
-        0x3A :: 0x64 :: 0x6E :: (0x3A :: m ++ (0x3A :: 0x3D :: (sv ++ r))) := by simp
-    have h1 : dnFlag2 (0x3A :: 0x64 :: 0x6E :: (0x3A :: m ++ (0x3A :: 0x3D :: (sv ++ r)))) =
-        .ok (some [0x3A, 0x64, 0x6E]) (0x3A :: m ++ (0x3A :: 0x3D :: (sv ++ r))) :=
-      opt_some (dnTerm_eq (q := colonType) h2)
+    have hk := hkw rfl
+    have e : ((if true = true then 0x3A :: kw else []) ++ (0x3A :: m ++ 0x3A :: 0x3D :: sv)) ++ r =
+        0x3A :: kw ++ (0x3A :: m ++ (0x3A :: 0x3D :: (sv ++ r))) := by simp
+    have h1 : dnFlag2 (0x3A :: kw ++ (0x3A :: m ++ (0x3A :: 0x3D :: (sv ++ r)))) =
+        .ok (some (0x3A :: kw)) (0x3A :: m ++ (0x3A :: 0x3D :: (sv ++ r))) :=
+      opt_some (dnTerm_eq (q := colonType) hk h2)
     rw [e, dnMrule_def, andThen_eq h1]
     exact htail _ rfl
   | false =>
     have e : ((if false = true then 0x3A :: kw else []) ++ (0x3A :: m ++ 0x3A :: 0x3D :: sv)) ++ r =
         0x3A :: m ++ (0x3A :: 0x3D :: (sv ++ r)) := by simp
     have h1 : dnFlag2 (0x3A :: m ++ (0x3A :: 0x3D :: (sv ++ r))) =
-        .ok none (0x3A :: m ++ (0x3A :: 0x3D :: (sv ++ r))) := by
-      apply opt_none
-      rcases dnTerm_err (q := colonType) (x := 0x3A :: 0x3D :: (sv ++ r)) hm
-        (fun c y hc => colonType_err_of_head hc) (fun _ => colonType_err_eq _) (Or.inr ⟨_, rfl⟩) with h | ⟨_, h⟩
-      · exact h
-      · exact h.elim
+        .ok none (0x3A :: m ++ (0x3A :: 0x3D :: (sv ++ r))) :=
+      opt_none (dnTerm_err (q := colonType) hm (fun c y hc => colonType_err_of_head hc)
+        (fun _ => colonType_err_eq _))
     rw [e, dnMrule_def, andThen_eq h1]
     exact htail _ rfl
 
